@@ -43,10 +43,13 @@ impl AckFrequencyState {
         // Use the peer's max_ack_delay if no custom max_ack_delay was provided in the config
         let min_ack_delay =
             Duration::from_micros(peer_params.min_ack_delay.map_or(0, |x| x.into()));
+        // The peer's `min_ack_delay` may exceed both the RTT and `MIN_AUTOMATIC_ACK_DELAY`; it then
+        // takes precedence, since `clamp` panics when its lower bound is above its upper bound.
+        let max = rtt.max(MIN_AUTOMATIC_ACK_DELAY).max(min_ack_delay);
         config
             .max_ack_delay
             .unwrap_or(self.peer_max_ack_delay)
-            .clamp(min_ack_delay, rtt.max(MIN_AUTOMATIC_ACK_DELAY))
+            .clamp(min_ack_delay, max)
     }
 
     /// Returns the `max_ack_delay` for the purposes of calculating the PTO
